@@ -13,6 +13,7 @@ import (
 
 func init() {
 	register(&PropertyCheck{ID: "C05", Level: "other", Run: checkC05, Canaries: []Canary{
+		{Name: "reason-code-count-taken-from-the-wire", Rule: "R5.1", Where: "(*SubAck).UnmarshalBinary", Edits: []Edit{{"suback.go", "\tp.reasonCodes = make([]uint8, len(data)-b.i)\n\n\tfor i, _ := range p.reasonCodes {\n\t\tvar v wuint8\n\t\tb.get(&v)\n\t\tp.reasonCodes[i] = uint8(v)\n\t}", "\tvar count wuint16\n\tb.get(&count)\n\tfor k := 0; k < int(count); k++ {\n\t\tp.reasonCodes = append(p.reasonCodes, 0)\n\t}"}}},
 		{Name: "map-presized-from-the-property-length", Rule: "R5.2", Where: "(*buffer).getAny#makemap", Edits: []Edit{{"buffer.go", "\tend := b.i + int(propLen)\n", "\tend := b.i + int(propLen)\n\tseen := make(map[Ident]bool, propLen/2)\n\t_ = seen\n"}}},
 		{Name: "pair-decoder-copies-the-rest-of-the-frame", Rule: "R5.2", Where: "(*UserProp).UnmarshalBinary", Edits: []Edit{{"wiretypes.go", "func (v *UserProp) UnmarshalBinary(data []byte) error {\n", "func (v *UserProp) UnmarshalBinary(data []byte) error {\n\town := make([]byte, len(data))\n\tcopy(own, data)\n\tdata = own\n"}}},
 		{Name: "subscribe-loop-ignores-error", Rule: "R5.1", Where: "(*Subscribe).UnmarshalBinary", Edits: []Edit{{"subscribe.go", "\t\tb.get(&f.options)\n\t\tif b.err != nil {\n\t\t\tbreak\n\t\t}\n", "\t\tb.get(&f.options)\n"}}},
@@ -60,6 +61,62 @@ func blockingInstr(ins ssa.Instruction) string {
 	return ""
 }
 
+// boundFromLen: the bound is len(x) (minus/plus constants, through conversions), or provably at most the length
+// of a slice parameter of the function.
+func boundFromLen(p *Prog, fn *ssa.Function, l *Loop, bound ssa.Value) bool {
+	var fromLen func(v ssa.Value, d int) bool
+	fromLen = func(v ssa.Value, d int) bool {
+		if d > 6 {
+			return false
+		}
+		switch x := v.(type) {
+		case *ssa.Call:
+			if bi, ok := x.Call.Value.(*ssa.Builtin); ok && (bi.Name() == "len" || bi.Name() == "cap") {
+				return true
+			}
+		case *ssa.Convert:
+			return fromLen(x.X, d+1)
+		case *ssa.ChangeType:
+			return fromLen(x.X, d+1)
+		case *ssa.BinOp:
+			if x.Op == token.ADD || x.Op == token.SUB {
+				if _, isC := constInt(x.Y); isC {
+					return fromLen(x.X, d+1)
+				}
+				if x.Op == token.SUB {
+					return fromLen(x.X, d+1) // len(a) - something
+				}
+			}
+			if x.Op == token.QUO || x.Op == token.SHR {
+				return fromLen(x.X, d+1)
+			}
+		case *ssa.Phi:
+			for _, e := range x.Edges {
+				if !fromLen(e, d+1) {
+					return false
+				}
+			}
+			return len(x.Edges) > 0
+		}
+		return false
+	}
+	if fromLen(bound, 0) {
+		return true
+	}
+	pr := NewProver(p, fn)
+	pr.assumeContracts()
+	bl := pr.lin(bound)
+	for _, prm := range fn.Params {
+		if _, ok := prm.Type().Underlying().(*types.Slice); !ok {
+			continue
+		}
+		if pr.Prove(l.Header, pr.lenOf(prm).sub(bl)) {
+			return true
+		}
+	}
+	return false
+}
+
 func ruleLoops(p *Prog, c *Check, rule string, scope map[*ssa.Function]bool) (nloops int) {
 	type lenLoop struct {
 		nl namedLoop
@@ -72,6 +129,12 @@ func ruleLoops(p *Prog, c *Check, rule string, scope map[*ssa.Function]bool) (nl
 		lc, ok := p.classifyLoop(nl.Fn, nl.L)
 		if !ok {
 			c.Unk(rule, nl.Name, pos, "loop is of no recognised terminating shape (range / counted / reader-driven with error exit / geometric or divisive counter)")
+			continue
+		}
+		if rule == "R5.1" && lc.Kind == "counted" && lc.Bound != "const" && lc.BoundVal != nil && !boundFromLen(p, nl.Fn, nl.L, lc.BoundVal) {
+			// on the decode path a loop-invariant bound that is neither a constant nor the length of something present
+			// is a number from the wire: a few bytes can make the decoder run (and append) as often as they say
+			c.Unk(rule, nl.Name, pos, "counted loop whose bound ("+describeVal(lc.BoundVal)+") is not the length of data that is present: the number of iterations is governed by a value inside the frame, not by the frame's size")
 			continue
 		}
 		c.OK(rule, nl.Name, pos, fmt.Sprintf("%s loop, bound %s: %s", lc.Kind, lc.Bound, lc.Why))
@@ -245,6 +308,12 @@ func checkC05(p *Prog, c *Check) {
 					cons := fmt.Sprintf("%s#makemap%d", qname(fn), ia)
 					l := pr.lin(x.Reserve)
 					done := l.isConst()
+					// the length of something that exists (a table, a list already in memory) is no wire-governed size
+					if call, ok := stripConvs(x.Reserve).(*ssa.Call); ok {
+						if bi, ok := call.Call.Value.(*ssa.Builtin); ok && bi.Name() == "len" {
+							done = true
+						}
+					}
 					for _, prm := range fn.Params {
 						if _, ok := prm.Type().Underlying().(*types.Slice); !ok || done {
 							continue
